@@ -15,7 +15,7 @@ na = []
 for p in props:
     pid = p["id"]
     info = extra["checks"].get(pid)
-    if pid in P.PROPS and info and info.get("claimed", True):
+    if (pid in P.PROPS or pid in P.CONC) and info and info.get("claimed", True):
         checks.append({
             "property_id": pid,
             "quick_cmd": "./check %s --tier quick" % pid,
